@@ -113,6 +113,8 @@ def parts(tier):
         Part("c01-lite-lite", "gen", _stag("c01", c01_link.strategy, "lite", "lite"), n=700 * k),
         Part("c01-lite-full", "gen", _stag("c01", c01_link.strategy, "lite", "full"), n=700 * k),
         Part("c01-full-lite", "gen", _stag("c01", c01_link.strategy, "full", "lite"), n=700 * k),
+        Part("c01-write-bursts-lite-full", "enum", _tag("c01", c01_link._burst_cases("lite", "full")), exhaustive=True),
+        Part("c01-write-bursts-lite-lite", "enum", _tag("c01", c01_link._burst_cases("lite", "lite")), exhaustive=True),
         Part("c02-enum-lite-full", "enum", _tag("c02", c02_send._enum((0, 1) if q else (0, 1, 2), (0, 1), "lite", "full")),
              exhaustive=True),
         Part("c02-hist-lite-lite", "enum", _tag("c02", c02_send._enum_hist(3 if q else 4, "lite", "lite")), exhaustive=True),
